@@ -141,9 +141,11 @@ func (t *Table) ReadFrom(r io.Reader) (int64, error) {
 	}
 	total := int64(n)
 	blocksCount := uint32(math.Ceil(float64(t.RowsCount) / float64(255)))
-	t.Blocks = make([][]byte, blocksCount)
-	t.BlockIndices = make([][]byte, blocksCount)
-	for i := range t.Blocks {
+	// blocksCount derives from a number in the stream: grow the slices as the
+	// sums are actually read
+	t.Blocks = make([][]byte, 0, minUint32(blocksCount, 1024))
+	t.BlockIndices = make([][]byte, 0, minUint32(blocksCount, 1024))
+	for i := uint32(0); i < blocksCount; i++ {
 		n, b, err := t.readBlock(r)
 		if err != nil {
 			if errors.Is(err, io.EOF) {
@@ -152,9 +154,9 @@ func (t *Table) ReadFrom(r io.Reader) (int64, error) {
 			return 0, err
 		}
 		total += int64(n)
-		t.Blocks[i] = b
+		t.Blocks = append(t.Blocks, b)
 	}
-	for i := range t.BlockIndices {
+	for i := uint32(0); i < blocksCount; i++ {
 		n, b, err := t.readBlock(r)
 		if err != nil {
 			if errors.Is(err, io.EOF) {
@@ -163,7 +165,7 @@ func (t *Table) ReadFrom(r io.Reader) (int64, error) {
 			return 0, err
 		}
 		total += int64(n)
-		t.BlockIndices[i] = b
+		t.BlockIndices = append(t.BlockIndices, b)
 	}
 	return total, nil
 }
